@@ -123,4 +123,12 @@ def run(pid, tier):
                        "near misses of generated templates, bracket/block/type nesting to 100 levels; outcome (accept + generated code | reject + full diagnostic text | panic) compared with the model; "
                        "oracle: no panic, a rejection has a diagnostic whose line number, caret column and echoed line are consistent with the input. non-trivial = longer than 3 bytes") % (
                         [t.decode("latin1") for t in CORE], L, L + 1, len(ex))
+    # the model as the theorems see it (vm_compute inside Coq) against the model as the correspondence runs it (extracted OCaml)
+    pool = [c for c in cases if len(c) <= 400]
+    xs = [(b"t_html", c) for c in (rng.sample(pool, min(len(pool), 40 if tier == "quick" else 400)) + [c for c in ex if len(c) <= 1500][:5])]
+    nx, xbad = extraction_crosscheck(xs)
+    chk.notes["extraction_crosscheck"] = "%d inputs evaluated by vm_compute inside Coq and by the extracted driver: %s" % (nx, "equal" if not xbad else xbad[0])
+    if xbad and not oracle_fail and not disagree:
+        chk.violation("the extracted model no longer computes what the Gallina model computes (%s); the correspondence proves nothing until this is repaired" % xbad[0],
+                      dict(stage="extraction", broken="Extract.v / ocaml/driver.ml vs vm_compute", mismatches=xbad[:5]), failing_input_found=False)
     return conclude(chk, proof, info, disagree, oracle_fail, len(cases))
